@@ -2364,6 +2364,13 @@ impl<'de, 'e> de::Deserializer<'de> for YamlDeserializer<'de, 'e> {
                         return Ok(None);
                     }
 
+                    // The end of the mapping has been taken from the stream: whatever follows
+                    // belongs to somebody else (the next element, the next document). A visitor
+                    // that asks again after `None` is told `None` again.
+                    if *self.ended {
+                        return Ok(None);
+                    }
+
                     match self.ev.peek()? {
                         Some(Ev::MapEnd { .. }) => {
                             let _ = self.ev.next()?; // consume end
